@@ -25,6 +25,8 @@ def eligible(hist):
         return False
     if not any(e["ev"] == "Stmt" for e in hist):
         return False
+    if any(e["ev"] == "Stmt" and e["st"]["s"] in ("encrypt", "keywrap") for e in hist):
+        return False      # their data are crypto: decided in the C19 lane by the owner clause, not by byte comparison
     return not any(e["ev"] == "Stmt" and e["st"]["s"] in KNOWN_STMTS for e in hist)
 
 
@@ -147,7 +149,7 @@ def strip(t):
     return {"id": t["id"], "kind": t["kind"], "mode": t["mode"], "given": t["given"], "ref": t["ref"], "ev": t["ev"]}
 
 
-CONSTRUCTS = ("DefOption", "DefOptionStr", "DefConst", "BeginSection", "Stmt")
+CONSTRUCTS = ("DefOption", "DefOptionStr", "DefConst", "DefKeyblob", "BeginSection", "Stmt")
 
 
 def replay(w):
